@@ -261,7 +261,29 @@ def run_bundled(desc, acc):
         acc.nontrivial(desc["model"], case, f)
 
 
+def run_probe(pr, acc):
+    """One committed deterministic case per recorded known finding (probes/C05/*.json)."""
+    from cobra.flux_analysis import flux_variability_analysis as fva
+
+    rec = pr["recipe"]
+    lab, res = gen.classify(rec)
+    with warnings.catch_warnings():
+        warnings.simplefilter("ignore")
+        model = gen.build(rec)
+        P = oracles.Problem(model)
+        a = pr["args"]
+        df = fva(model, reaction_list=a["reaction_list"], loopless=a["loopless"], fraction_of_optimum=a["fraction"], pfba_factor=a.get("pfba_factor"), processes=1)
+    acc.ev()
+    acc.count("probes_run")
+    ident = {"probe": pr["name"], "args": a, "direction": rec["direction"], "optimum": float(res.obj)}
+    judge(acc, model, P, df, list(a["reaction_list"]), a["fraction"], a["loopless"], a.get("pfba_factor"), ident, rec)
+
+
 def run_shard(desc, acc):
+    if desc["kind"] == "probes":
+        for pr in desc["probes"]:
+            run_probe(pr, acc)
+        return
     if desc["kind"] == "generated":
         run_generated(desc, acc)
     else:
